@@ -250,9 +250,9 @@ def run_entry_probes(desc):
         ns = {"State": State, "StateMachine": StateMachine, "LOG": log, "__name__": "vmon_c13e"}
         with warnings.catch_warnings():
             warnings.simplefilter("ignore")
-            exec(compile(ENTRY_SRC, "<c13-entry>", "exec"), ns)
             problems = []
             try:
+                exec(compile(ENTRY_SRC, "<c13-entry>", "exec"), ns)
                 sm = ns["D"]()
                 if sorted(str(e) for e in sm.events) != ["back", "ev", "jump"]:
                     problems.append(f"events {[str(e) for e in sm.events]}")
@@ -291,12 +291,16 @@ def run_entry_probes(desc):
                 return {"bound": t.ev, "events_item": m.events[0], "allowed_item": m.allowed_events[0]}[kind], t
 
             kind = ["bound", "events_item", "allowed_item"][rep % 3]
-            trig, keep = factory(kind)
-            if kind != "bound":
-                keep = None
-            gc.collect()
+            if "D" not in ns:
+                counters["entry_probes"] += 1
+                continue
             del log[:]
             try:
+                trig, keep = factory(kind)
+                if kind != "bound":
+                    keep = None
+                gc.collect()
+                del log[:]
                 res = trig()
                 ok = res == "H" and log == ["helper"]
                 detail = f"returned {res!r}, callbacks {log}"
